@@ -446,7 +446,8 @@ pub fn render_float(
 	// Note that it can also be equal to 10**prec and we'll need to carry
 	// over to the wholes.  We operate on the absolute numbers, so that we
 	// don't have trouble with the rounding direction.
-	let denominator = 10.0f64.powi(i32::from(precision));
+	// powi accumulates error of repeated multiplication
+	let denominator = 10.0f64.powf(f64::from(precision));
 	// Not mul_add: fused operation rounds differently from the reference implementation,
 	// i.e "%.17f" % 0.05 should end with 0, not with 1
 	#[allow(clippy::suboptimal_flops)]
